@@ -513,3 +513,176 @@ Proof.
       fold (mk_text neg i (Some x1)). rewrite has_minus_mk_text by exact Hg. reflexivity.
     + split; auto.
 Qed.
+
+(* ------------------------------------------------------------------------------------------ *)
+(* H. the repaired parser accepts exactly the pattern members that fit, and reads them right   *)
+(* ------------------------------------------------------------------------------------------ *)
+Lemma amount_of_mk_text neg i f : good_text i f ->
+  amount_of (mk_text neg i f) = mkA (text_value neg i f) (length (frac_digits f)).
+Proof. intros H. unfold amount_of. rewrite value_of_mk_text by exact H. reflexivity. Qed.
+
+Lemma fits_int64_mk_text neg i f : good_text i f ->
+  fits_int64 (mk_text neg i f) = fits64 (text_value neg i f) && Nat.leb (length (frac_digits f)) 18.
+Proof. intros H. unfold fits_int64. rewrite value_of_mk_text by exact H. reflexivity. Qed.
+
+Lemma parse_fixed_iff s a :
+  parse_amount_fixed s = Some a <->
+  matches_amount_pattern s = true /\ fits_int64 s = true /\ a = amount_of s.
+Proof.
+  split.
+  - intros H. destruct (parse_fixed_shape s a H) as (i & f & E & G).
+    remember (has_minus s) as neg eqn:Hneg. clear Hneg. subst s.
+    rewrite parse_fixed_mk_text in H by exact G.
+    rewrite matches_mk_text, fits_int64_mk_text, amount_of_mk_text by exact G.
+    destruct (fits64 (text_value neg i f) && Nat.leb (length (frac_digits f)) 18); [|discriminate].
+    inversion H. auto.
+  - intros (M & F & ->). destruct (matches_shape s M) as (i & f & E & G).
+    remember (has_minus s) as neg eqn:Hneg. clear Hneg. subst s.
+    rewrite fits_int64_mk_text in F by exact G.
+    rewrite parse_fixed_mk_text, amount_of_mk_text by exact G. rewrite F. reflexivity.
+Qed.
+
+Lemma parse_fixed_accepts_iff s :
+  (exists a, parse_amount_fixed s = Some a) <-> matches_amount_pattern s = true /\ fits_int64 s = true.
+Proof.
+  split.
+  - intros [a H]. apply parse_fixed_iff in H. tauto.
+  - intros [M F]. exists (amount_of s). apply parse_fixed_iff. auto.
+Qed.
+
+Lemma parse_fixed_rejects_iff s :
+  parse_amount_fixed s = None <-> ~ (matches_amount_pattern s = true /\ fits_int64 s = true).
+Proof.
+  rewrite <- parse_fixed_accepts_iff. destruct (parse_amount_fixed s) as [a|].
+  - split; [discriminate|]. intros H. exfalso. apply H. eauto.
+  - split; auto. intros _ [a H]. discriminate.
+Qed.
+
+Lemma parse_fixed_never_misreads s a : parse_amount_fixed s = Some a ->
+  val a = fst (value_of s) /\ exp a = snd (value_of s).
+Proof. intros H. apply parse_fixed_iff in H. destruct H as (_ & _ & ->). split; reflexivity. Qed.
+
+(* ------------------------------------------------------------------------------------------ *)
+(* I. printing                                                                                 *)
+(* ------------------------------------------------------------------------------------------ *)
+Lemma wrap_abs v : fits64 v = true -> wrapu64 (if v <? 0 then wrap64 (- v) else v) = Z.abs v.
+Proof.
+  intros F. apply fits64_iff in F. unfold wrapu64, wrap64.
+  change two64 with 18446744073709551616. change two63 with 9223372036854775808.
+  destruct (v <? 0) eqn:E; lia.
+Qed.
+
+Definition print_frac (v : Z) (e : nat) : option bytes :=
+  if Nat.eqb e 0 then None else Some (pad_left e (digits_of (Z.abs v mod pow10 e))).
+
+Lemma print_fixed_shape a : amount_ok a = true ->
+  print_amount_fixed a =
+  mk_text (val a <? 0) (digits_of (Z.abs (val a) / pow10 (exp a))) (print_frac (val a) (exp a)).
+Proof.
+  destruct a as [v e]. unfold amount_ok, print_amount_fixed, print_frac. cbn [val exp].
+  intros H. apply andb_true_iff in H. destruct H as [F He]. apply Nat.leb_le in He.
+  destruct (Nat.eqb e 0) eqn:E0.
+  - apply Nat.eqb_eq in E0. subst e. rewrite pow10_0, Z.div_1_r.
+    unfold print_int, mk_text. cbn [frac_text]. rewrite app_nil_r.
+    destruct (v <? 0) eqn:E; cbn [sign_text app].
+    + rewrite Z.abs_neq by lia. reflexivity.
+    + rewrite Z.abs_eq by lia. reflexivity.
+  - assert (Hlt : Nat.ltb 1000 e = false) by (apply Nat.ltb_ge; lia). rewrite Hlt.
+    rewrite (int_pow10_small e He). pose proof (pow10_pos e) as HP. pose proof (pow10_le_18 e He) as HP18.
+    assert (Hp : wrapu64 (pow10 e) = pow10 e)
+      by (unfold wrapu64; change two64 with 18446744073709551616; apply Z.mod_small; lia).
+    rewrite Hp, (wrap_abs v F).
+    apply fits64_iff in F.
+    set (u := Z.abs v) in *. assert (Hu : 0 <= u <= 9223372036854775808) by lia.
+    pose proof (Z.div_mod u (pow10 e) ltac:(lia)) as D. pose proof (Z.mod_pos_bound u (pow10 e) HP) as B.
+    assert (Hq : 0 <= u / pow10 e) by (apply Z.div_pos; lia).
+    assert (H1 : wrapu64 (u / pow10 e * pow10 e) = u / pow10 e * pow10 e).
+    { unfold wrapu64. change two64 with 18446744073709551616. apply Z.mod_small. nia. }
+    rewrite H1.
+    assert (H2 : wrapu64 (u - u / pow10 e * pow10 e) = u mod pow10 e).
+    { replace (u - u / pow10 e * pow10 e) with (u mod pow10 e) by lia.
+      unfold wrapu64. change two64 with 18446744073709551616. apply Z.mod_small. lia. }
+    rewrite H2. reflexivity.
+Qed.
+
+Lemma digits_of_good z : 0 <= z -> good_digits (digits_of z).
+Proof. intros H. split; [apply digits_of_nonempty | apply digits_of_digits, H]. Qed.
+
+Lemma print_shape_good v e :
+  good_text (digits_of (Z.abs v / pow10 e)) (print_frac v e) /\
+  length (frac_digits (print_frac v e)) = e.
+Proof.
+  pose proof (pow10_pos e) as HP.
+  assert (Hq : 0 <= Z.abs v / pow10 e) by (apply Z.div_pos; lia).
+  pose proof (Z.mod_pos_bound (Z.abs v) (pow10 e) HP) as B.
+  unfold print_frac. destruct (Nat.eqb e 0) eqn:E0.
+  - apply Nat.eqb_eq in E0. subst e. repeat split; auto using digits_of_nonempty, digits_of_digits.
+  - apply Nat.eqb_neq in E0.
+    assert (L : length (pad_left e (digits_of (Z.abs v mod pow10 e))) = e)
+      by (apply pad_left_length, digits_of_len; lia).
+    repeat split; auto using digits_of_nonempty, digits_of_digits.
+    + intros X. rewrite X in L. cbn in L. lia.
+    + apply pad_left_digits, digits_of_digits. lia.
+Qed.
+
+Lemma print_shape_value v e :
+  text_value (v <? 0) (digits_of (Z.abs v / pow10 e)) (print_frac v e) = v.
+Proof.
+  pose proof (pow10_pos e) as HP.
+  assert (Hq : 0 <= Z.abs v / pow10 e) by (apply Z.div_pos; lia).
+  pose proof (Z.mod_pos_bound (Z.abs v) (pow10 e) HP) as B.
+  pose proof (Z.div_mod (Z.abs v) (pow10 e) ltac:(lia)) as D.
+  assert (V : value_of_digits (digits_of (Z.abs v / pow10 e) ++ frac_digits (print_frac v e)) = Z.abs v).
+  { rewrite vod_app. rewrite (proj2 (print_shape_good v e)). rewrite digits_of_value by exact Hq.
+    unfold print_frac. destruct (Nat.eqb e 0) eqn:E0; cbn [frac_digits].
+    - apply Nat.eqb_eq in E0. subst e. rewrite vod_nil. rewrite pow10_0 in *. lia.
+    - rewrite pad_left_vod, digits_of_value by lia. lia. }
+  unfold text_value. rewrite V. destruct (v <? 0) eqn:E; lia.
+Qed.
+
+Lemma print_fixed_matches a : amount_ok a = true -> matches_amount_pattern (print_amount_fixed a) = true.
+Proof. intros H. rewrite (print_fixed_shape a H). apply matches_mk_text, print_shape_good. Qed.
+
+Lemma parse_print_fixed a : amount_ok a = true -> parse_amount_fixed (print_amount_fixed a) = Some a.
+Proof.
+  intros H. rewrite (print_fixed_shape a H).
+  rewrite parse_fixed_mk_text by apply print_shape_good.
+  rewrite print_shape_value, (proj2 (print_shape_good (val a) (exp a))).
+  unfold amount_ok in H. rewrite H. destruct a; reflexivity.
+Qed.
+
+(* the shipped printer agrees with the repaired one except on math.MinInt64 *)
+Lemma print_shipped_eq_fixed a : amount_ok a = true -> val a <> min64 -> print_amount a = print_amount_fixed a.
+Proof.
+  destruct a as [v e]. unfold amount_ok, print_amount, print_amount_fixed, min64. cbn [val exp].
+  intros H Hm. apply andb_true_iff in H. destruct H as [F He]. apply Nat.leb_le in He.
+  destruct (Nat.eqb e 0) eqn:E0; [reflexivity|].
+  assert (Hlt : Nat.ltb 1000 e = false) by (apply Nat.ltb_ge; lia). rewrite Hlt.
+  rewrite (int_pow10_small e He). pose proof (pow10_pos e) as HP. pose proof (pow10_le_18 e He) as HP18.
+  assert (Hp : wrapu64 (pow10 e) = pow10 e)
+    by (unfold wrapu64; change two64 with 18446744073709551616; apply Z.mod_small; lia).
+  rewrite Hp, (wrap_abs v F).
+  apply fits64_iff in F. change two63 with 9223372036854775808 in Hm.
+  assert (Hv : (if v <? 0 then wrap64 (- v) else v) = Z.abs v).
+  { unfold wrap64. change two64 with 18446744073709551616. change two63 with 9223372036854775808.
+    destruct (v <? 0) eqn:E; lia. }
+  rewrite Hv.
+  set (u := Z.abs v) in *. assert (Hu : 0 <= u < 9223372036854775808) by lia.
+  pose proof (Z.div_mod u (pow10 e) ltac:(lia)) as D. pose proof (Z.mod_pos_bound u (pow10 e) HP) as B.
+  assert (Hq : 0 <= u / pow10 e) by (apply Z.div_pos; lia).
+  assert (Hq2 : u / pow10 e * pow10 e <= u) by lia.
+  rewrite Z.quot_div_nonneg by lia.
+  assert (W : forall z, 0 <= z < 9223372036854775808 -> wrap64 z = z).
+  { intros z Hz. unfold wrap64. change two64 with 18446744073709551616. change two63 with 9223372036854775808. lia. }
+  assert (U : forall z, 0 <= z < 9223372036854775808 -> wrapu64 z = z).
+  { intros z Hz. unfold wrapu64. change two64 with 18446744073709551616. apply Z.mod_small. lia. }
+  rewrite (W (u / pow10 e)) by nia.
+  rewrite (W (u / pow10 e * pow10 e)) by nia.
+  rewrite (U (u / pow10 e * pow10 e)) by nia.
+  rewrite (W (u - u / pow10 e * pow10 e)) by lia.
+  rewrite (U (u - u / pow10 e * pow10 e)) by lia.
+  unfold print_int, print_int_padded.
+  assert (E1 : (u / pow10 e <? 0) = false) by lia. rewrite E1.
+  assert (E2 : (u - u / pow10 e * pow10 e <? 0) = false) by lia. rewrite E2.
+  reflexivity.
+Qed.
